@@ -86,7 +86,7 @@ fn status_name(s: &PolytopeStatus) -> &'static str {
 /// judge one solve_linprog answer against the exact oracle
 fn judge_lp(what: &str, rows: &[Row], n: usize, c: &[Q], lib: &PolytopeStatus, ctx: &mut Ctx) -> CaseResult {
     let exact = lp::minimize(rows, n, c);
-    let ball = lp::has_ball(rows, n, &delta());
+    let ball = lp::has_ball_boxed(rows, n, &delta());
     match lib {
         PolytopeStatus::Error(m) => Err(Failure::new(format!("{what}: the LP layer returned Error({m})"))),
         PolytopeStatus::Infeasible => {
@@ -169,7 +169,7 @@ pub fn run_case(case: &Case, ctx: &mut Ctx) -> CaseResult {
     let m = rows.len();
 
     let closed_nonempty = lp::feasible_closed(&rows, n).is_some();
-    let ball = lp::has_ball(&rows, n, &delta());
+    let ball = lp::has_ball_boxed(&rows, n, &delta());
     let fd = closed_nonempty && lp::full_dim(&rows, n).is_some();
     ctx.class(if !closed_nonempty {
         "empty"
@@ -283,7 +283,7 @@ pub fn run_case(case: &Case, ctx: &mut Ctx) -> CaseResult {
         let lib = must("solve_linprog(chebyshev)", || cp.solve_linprog(cost.clone(), false))?;
         let e_lo = lp::minimize(&rows_lo, n + 1, &cq);
         let e_hi = lp::minimize(&rows_hi, n + 1, &cq);
-        let cball = lp::has_ball(&rows_lo, n + 1, &delta());
+        let cball = lp::has_ball_boxed(&rows_lo, n + 1, &delta());
         match (&lib, &e_lo, &e_hi) {
             (PolytopeStatus::Error(msg), _, _) => return Err(Failure::new(format!("chebyshev LP returned Error({msg})"))),
             (PolytopeStatus::Optimal(sol), Opt::Val(vlo, _), Opt::Val(vhi, _)) => {
